@@ -11,6 +11,7 @@ import kopf
 from kopfsim import vclock
 from kopfsim.cluster import FakeCluster, ResDef
 from kopfsim.opspec import LIFECYCLES, OperatorProgram, make_settings
+from kopfsim.threads import ThreadHub
 from kopfsim.world import Livelock, World
 
 KEX = ('kopf.dev', 'v1', 'kopfexamples')
@@ -37,6 +38,9 @@ class Op:
         self.loop = sim.world.spawn(name)
         self.program = OperatorProgram(sim, name, spec)
         self.settings = make_settings(spec)
+        if any(h.get('sync') for h in spec.get('handlers', [])):
+            # synchronous handlers run in harness-owned threads that are serialised with the world (kopfsim/threads.py)
+            self.settings.execution.executor = sim.threads.executor(name)
         self.stop_flag = None
         self.stop_pending = False     # a stop requested before the process got to run at all
         self.ready_flag = None
@@ -85,6 +89,7 @@ class Sim:
         vclock.install()
         random.seed(seed)
         self.world = World()
+        self.threads = ThreadHub(self.world)
         vclock.set_clock(lambda: self.world.now)
         self.cluster = FakeCluster(self.world)
         for k, v in quirks.items():
@@ -131,6 +136,7 @@ class Sim:
             return
         op.killed_at = self.world.now
         self.cluster.fence(name)
+        self.threads.kill(name)
         self.world.kill(name)
         self.note('kill', name)
 
@@ -155,6 +161,7 @@ class Sim:
         return [r for r in self.trace if r.get('k') == 'call' and all(r.get(k) == v for k, v in match.items())]
 
     def close(self):
+        self.threads.close()
         for name in list(self.world.procs):
             self.cluster.fence(name)
             self.world.kill(name)
